@@ -289,12 +289,26 @@ def meth():
                                 pressure_unit='mbar', loading_basis='molar', loading_unit='mmol', material_basis='mass', material_unit='g', temperature_unit='K')
 
 
+def co2():
+    return pygaps.PointIsotherm(pressure=[5e3, 1e4, 5e4, 1e5, 2e5, 4e5, 7e5, 1e6], loading=[0.45, 0.83, 2.50, 3.40, 4.20, 4.80, 5.15, 5.35], material='pgv_c04',
+                                adsorbate='carbon dioxide', temperature=298.15, pressure_mode='absolute', pressure_unit='Pa', loading_basis='molar',
+                                loading_unit='mmol', material_basis='mass', material_unit='g', temperature_unit='K')
+
+
 Q = {
     'whittaker(point isotherm)': lambda: [round(float(v), 6) for v in pgc.enthalpy_sorption_whittaker(meth(), model='Toth', loading=[1.0, 2.0])['enthalpy_sorption']],
     'relative pressures': lambda: [round(float(v), 9) for v in meth().pressure(pressure_mode='relative')[:3]],
     'loading in cm3 gas': lambda: [round(float(v), 6) for v in meth().loading(loading_basis='volume_gas', loading_unit='cm3')[:3]],
     'saturation pressure': lambda: round(float(pygaps.Adsorbate.find('methane').saturation_pressure(150.0)), 3),
     'area_BET(MCM-41)': lambda: round(float(pgc.area_BET(c04._load())['area']), 6),
+    # a vapour below its critical temperature: every saturation property exists, and the analyses drive the shared backend state
+    # through other kinds of input (pressure-quality) between two temperature-quality requests
+    'whittaker(CO2, sub-critical)': lambda: [round(float(v), 6) for v in pgc.enthalpy_sorption_whittaker(co2(), model='Toth', loading=[1.0, 2.0, 3.0])['enthalpy_sorption']],
+    'relative pressures (CO2)': lambda: [round(float(v), 9) for v in co2().pressure(pressure_mode='relative')[:3]],
+    'loading in cm3 liquid (CO2)': lambda: [round(float(v), 9) for v in co2().loading(loading_basis='volume_liquid', loading_unit='cm3')[:3]],
+    'saturation pressure (CO2, 298.15 K)': lambda: round(float(pygaps.Adsorbate.find('carbon dioxide').saturation_pressure(298.15)), 3),
+    'surface tension (CO2, 298.15 K)': lambda: round(float(pygaps.Adsorbate.find('carbon dioxide').surface_tension(298.15)), 9),
+    'vaporisation enthalpy at 20 bar (CO2)': lambda: round(float(pygaps.Adsorbate.find('carbon dioxide').enthalpy_vaporisation(press=2e6)), 6),
 }
 
 
@@ -313,6 +327,15 @@ if which == 'ALL':
         out[k] = run(k)
     for k in order:                        # and each one once more
         out[k + ' (second time)'] = run(k)
+    for k in order:                        # and sandwiched: k, another query, k again (the one in between is all that separates them)
+        for mid in order:
+            if mid != k and ('CO2' in k) == ('CO2' in mid):
+                run(k)
+                run(mid)
+                r = run(k)
+                if r != out[k]:
+                    out[k + ' (sandwich)'] = ['differs', f"{r} straight after {mid!r} which followed the same query; {out[k]} before"]
+                    break
     print('PGV-JSON' + json.dumps(out))
 else:
     print('PGV-JSON' + json.dumps({which: run(which)}))
@@ -333,7 +356,9 @@ def first_in_process_cases():
         p = subprocess.run([sys.executable, '-c', _FIRST, arg], capture_output=True, text=True, env=env, timeout=900)
         line = [ln for ln in p.stdout.splitlines() if ln.startswith('PGV-JSON')]
         return json.loads(line[-1][8:]) if line else {'__error__': (p.stderr or p.stdout)[-300:]}
-    names = ['whittaker(point isotherm)', 'relative pressures', 'loading in cm3 gas', 'saturation pressure', 'area_BET(MCM-41)']
+    names = ['whittaker(point isotherm)', 'relative pressures', 'loading in cm3 gas', 'saturation pressure', 'area_BET(MCM-41)', 'whittaker(CO2, sub-critical)',
+             'relative pressures (CO2)', 'loading in cm3 liquid (CO2)', 'saturation pressure (CO2, 298.15 K)', 'surface tension (CO2, 298.15 K)',
+             'vaporisation enthalpy at 20 bar (CO2)']
     long_lived = sub('ALL')
     if '__error__' in long_lived:
         yield {'name': 'first_in_process|harness', 'ok': False, 'detail': long_lived['__error__']}
@@ -341,8 +366,10 @@ def first_in_process_cases():
     for n in names:
         fresh = sub(n).get(n)
         later, again = long_lived.get(n), long_lived.get(n + ' (second time)')
-        ok = fresh == later == again
-        yield {'name': f"first_in_process|{n}", 'ok': ok, 'detail': '' if ok else f"first in a fresh process: {fresh}; after other queries: {later}; once more: {again}"}
+        sand = long_lived.get(n + ' (sandwich)')
+        ok = fresh == later == again and sand is None
+        yield {'name': f"first_in_process|{n}", 'ok': ok,
+               'detail': '' if ok else f"first in a fresh process: {fresh}; after other queries: {later}; once more: {again}" + (f"; between two identical queries: {sand[1]}" if sand else '')}
 
 
 @replayer('c04.first')
